@@ -1,7 +1,7 @@
 """C07 -- weakly consistent iterators (clauses).  T1 nullable link tested before dereference (contradiction rule, also M5 of C03) /
 T2 old bin lists are never mutated by resize / treeify / untreeify."""
-from .analysis import flow, reach, after, Point, cond_of, is_view, value_chains
-from .anchors import callee_str, is_link_load, is_shared_write, receiver_field, is_reclaim_atomic
+from .analysis import flow, reach, after, Point, cond_of, is_view, value_chains, dominated_by_edge
+from .anchors import callee_str, is_link_load, is_shared_write, receiver_field, is_reclaim_atomic, is_fresh_alloc
 from .facts import strip_generics, op_root, op_local
 
 PROP = "C07"
@@ -26,15 +26,58 @@ NEVER_NULL = {("node::Node", "value"), ("raw::Table", "moved")}
 
 # (function, field) -> invariant that makes the untested dereference safe.  Reviewed by reading; see DESIGN §4 C07.
 EXCEPTIONS = {
-    ("raw::Table::find", "raw::Table.next_table"):
-        "a Moved marker was read from this table, and get_moved sets next_table before it hands out the marker",
-    ("<iter::traverser::NodeIter<'g, K, V> as std::iter::Iterator>::next", "raw::Table.next_table"):
-        "a Moved marker was read from this table, and get_moved sets next_table before it hands out the marker",
     ("map::HashMap::transfer", "map::HashMap.next_table"):
         "re-read immediately after this thread swapped a non-null table in; only the finisher of the same resize clears it",
     ("raw::Table::drop_bins", "<element>"):
         "second load of a slot tested two lines above, under &mut self",
 }
+
+def moved_edges(body):
+    """edges taken when a bin entry was seen to be the forwarding marker: switch on the discriminant of a BinEntry, value = index of Moved"""
+    adt = body.facts.adts.get("node::BinEntry")
+    if not adt:
+        return []
+    names = [v["name"] for v in adt["variants"]]
+    if "Moved" not in names:
+        return []
+    mi = names.index("Moved")
+    out = []
+    for blk in range(len(body.blocks)):
+        t = body.term(blk)
+        if t["k"] != "switch" or body.blocks[blk]["cleanup"]:
+            continue
+        l = op_local(t["on"])
+        if l is None:
+            continue
+        for pt, kind, data in body.defs.get(l, []):
+            if kind == "assign" and "discr" in data["rv"]:
+                pl = data["rv"]["discr"]
+                ty = body.ty(pl["local"])
+                if "BinEntry" not in ty["s"]:
+                    continue
+                listed = {int(v): tb for v, tb in t["targets"]}
+                if mi in listed:
+                    out.append((blk, listed[mi]))
+                elif len(listed) == len(names) - 1:
+                    out.append((blk, t["otherwise"]))
+    return out
+
+
+def after_moved_marker(facts, b, pt, depth=0):
+    """pt executes only after a forwarding marker was read: dominated by a Moved edge in b, or b is a helper all of whose call sites are"""
+    me = moved_edges(b)
+    if me and dominated_by_edge(b, pt, me):
+        return True
+    if depth >= 2 or b.exported:
+        return False
+    from .callgraph import callgraph
+    sites = [(cid, via) for cid, via in callgraph(facts).callers(b.id) if hasattr(via, "point")]
+    sites = [(cid, via) for cid, via in sites if not facts.by_id[cid].is_cleanup(via.b) and cid != b.id]
+    return bool(sites) and all(after_moved_marker(facts, facts.by_id[cid], via.point, depth + 1) for cid, via in sites)
+
+
+MOVED_INVARIANT = ("a Moved marker was read before this dereference (in this body or at every call site of this helper), and get_moved sets "
+                   "next_table before it hands out the marker (rule M6 of C03)")
 
 DEREFS = ("reclaim::Shared::deref", "node::TreeNode::get_tree_node")
 
@@ -165,6 +208,8 @@ def rule_t1(ctx, facts):
                 done.add((ld.b, lab))
                 key = (strip_generics(b.id), lab)
                 exc = EXCEPTIONS.get(key)
+                if exc is None and lab == "raw::Table.next_table" and after_moved_marker(facts, b, c.point):
+                    exc = MOVED_INVARIANT
                 if exc:
                     ctx.inst("T1", b, "deref of %s" % lab, c.span, True, "reviewed exception: %s" % exc)
                 else:
@@ -209,7 +254,7 @@ def private_roots(body, l):
     for r in roots:
         if r[0] == "call":
             s = callee_str(body.call_at(r[1]))
-            if not any(s.endswith(p) for p in PRIVATE_CTORS):
+            if not any(s.endswith(p) for p in PRIVATE_CTORS) and not is_fresh_alloc(body, body.call_at(r[1])):
                 bad.append("%s at %s" % (s, body.call_at(r[1]).span))
         elif r[0] == "arg":
             bad.append("parameter %d" % r[1])
@@ -265,7 +310,9 @@ def rule_t3(ctx, facts):
     P = lambda *f: ("place", 1, tuple(f))
     INDEX, BASE_SIZE, BASE_INDEX, TOPLEN = P("index"), P("base_size"), P("base_index"), P("stack", "0", "length")
 
-    def index_assignments(b):
+    PRE = {}
+
+    def index_assignments(b, depth=0):
         ev = evaluator(b)
         out = []
         for bi, blk in enumerate(b.blocks):
@@ -277,6 +324,25 @@ def rule_t3(ctx, facts):
                     if fs in (["index"], ["base_index"]):
                         f = ev.operand(st["rv"]["use"]) if "use" in st["rv"] else TOP
                         out.append((fs[0], f, st["span"], (bi, si)))
+        # assignments made by a `&mut self` helper called on the same traverser: its forms with the actual arguments substituted
+        if depth < 2:
+            for c in b.calls:
+                tb = facts.by_id.get(c.resolved)
+                if tb is None or tb.kind == "Closure" or b.is_cleanup(c.b) or tb.id == b.id or not c.args:
+                    continue
+                if "NodeIter" not in tb.ty(1)["s"] or not tb.ty(1)["s"].startswith("&mut") or not flow(b).derives_from_arg(op_root(c.args[0]), 1):
+                    continue
+                for field, f, span, _pt in index_assignments(tb, depth + 1):
+                    if field == "index" and classify(tb, f):
+                        PRE[(span, (c.b, b.nstmts(c.b)))] = classify(tb, f)
+                    if f is not TOP:
+                        for k in range(2, tb.nargs + 1):
+                            if ("arg", k) in f.symbols():
+                                actual = ev.operand(c.args[k - 1])
+                                f = f.subst(("arg", k), actual) if actual is not TOP else TOP
+                                if f is TOP:
+                                    break
+                    out.append((field, f, span, (c.b, b.nstmts(c.b))))
         return out
 
     def classify(b, f):
@@ -303,7 +369,7 @@ def rule_t3(ctx, facts):
                 ok = f is not TOP and f == Aff({BASE_INDEX: 1}, 1)
                 ctx.inst("T3", b, "base_index step", span, ok, "base_index + 1" if ok else "base_index is set to %s" % (f.show(b) if f is not TOP else "?"))
                 continue
-            k = classify(b, f)
+            k = classify(b, f) or PRE.get((span, pt))
             if k:
                 seen.add(k[0])
             ctx.inst("T3", b, "index := %s" % (k or "?"), span, k is not None,
@@ -334,7 +400,7 @@ def rule_t3(ctx, facts):
                 from .facts import Point
                 for field, f, span, pt in index_assignments(rs):
                     if field == "index" and dominated_by_edge(rs, Point(pt[0], pt[1]), [(blk, cd["true"])]):
-                        k = classify(rs, f)
+                        k = classify(rs, f) or PRE.get((span, pt))
                         ok = bool(k) and k[0] == "A"
                         ctx.inst("T3", rs, "sibling-bin stride", span, ok, "advances by the saved frame length" if ok else
                                  "when the sibling bin index + frame.length is still inside the table, the index advances by %s instead of the saved "
